@@ -6,7 +6,7 @@
    spec_udp_bytes / spec_tcp_bytes, written from RFC 7252 / RFC 8323). *)
 From Coq Require Import ZArith List Bool.
 From GoCoap Require Import Base.Bytes Gen.OptionDefs Gen.TcpConsts
-     Codec.Options Codec.Udp Codec.Tcp Codec.Pool Codec.Spec Codec.ProofsOpt Codec.ProofsC01 Codec.ProofsC02.
+     Codec.Options Codec.Udp Codec.Tcp Codec.Pool Codec.Spec Codec.ProofsOpt Codec.ProofsC01 Codec.ProofsC02 Codec.ProofsC01Stream.
 Import ListNotations.
 Open Scope Z_scope.
 
@@ -86,6 +86,59 @@ Proof.
 Qed.
 Print Assumptions C01_tcp_roundtrip.
 
+(* Stream coder, "consumes exactly the bytes produced": when the buffer goes on after the
+   frame (the next frames of the TCP stream, a partial frame, ANY bytes [rest]), Decode still
+   returns the same message and the number of bytes the encoder produced for it -- nothing
+   behind the frame is read or counted -- and DecodeHeader reports the same frame.
+   (The code casts len(data) to uint32, hence the bound on the buffer length.) *)
+Theorem C01_tcp_stream_roundtrip : forall m cap rest, wf_tcp messageMaxLen m = true -> blen (m_opts m) <= cap ->
+  blen (spec_tcp_bytes m) + blen rest < 4294967296 ->
+  let bs := spec_tcp_bytes m in
+  tcp_decode cap (bs ++ rest) = Ok (tcp_view m, blen bs) /\
+  tcp_decode_header (bs ++ rest) = Ok {| h_len := blen bs - blen (spec_body m); h_mlen := blen bs; h_code := m_code m; h_tok := m_tok m |}.
+Proof.
+  intros m cap rest Hwf Hcap Hlen bs. subst bs. split; [apply tcp_decode_stream_spec; assumption|].
+  rewrite spec_tcp_eq, <- app_assoc, (tcp_header_tail m _ Hwf), blen_app.
+  replace (blen (spec_tcp_hdr m) + blen (spec_body m) - blen (spec_body m)) with (blen (spec_tcp_hdr m)) by apply Zplus_minus_eq, Z.add_comm.
+  reflexivity.
+Qed.
+Print Assumptions C01_tcp_stream_roundtrip.
+
+(* Every list of well-formed messages, encoded back to back into one stream buffer, is taken
+   apart again by the loop "Decode at the front, advance by the returned count" (tcp_frames):
+   each message comes back with exactly its own encoded length and the buffer is used up.
+   When the last frame is there only in part (header complete, body not), all complete
+   frames are returned and the partial one is answered ErrShortRead and left in place. *)
+Theorem C01_tcp_frames : forall ms cap, msgs_ok cap ms -> blen (stream_bytes ms) < 4294967296 ->
+  tcp_frames (S (length ms)) cap (stream_bytes ms) = (map frame_result ms, SEnd, []) /\
+  (forall m tail, wf_tcp messageMaxLen m = true -> blen tail < blen (spec_body m) ->
+     blen (stream_bytes ms) + blen (spec_tcp_hdr m ++ tail) < 4294967296 ->
+     tcp_frames (S (length ms)) cap (stream_bytes ms ++ spec_tcp_hdr m ++ tail) =
+       (map frame_result ms, SErr EShortRead, spec_tcp_hdr m ++ tail)).
+Proof.
+  intros ms cap Hok Hlen. split; [apply tcp_frames_spec; assumption|].
+  intros m tail Hwf Hlt Hl. apply tcp_frames_partial; assumption.
+Qed.
+Print Assumptions C01_tcp_frames.
+
+(* Option values are carried verbatim by both decoders: nothing is normalised.  In particular
+   a uint-format option (Observe, Uri-Port, Content-Format, Max-Age, Accept, Block1/2,
+   Size1/2, No-Response; the signalling options) whose registry-legal value starts with
+   0x00 bytes comes back with them, and the bytes after it are parsed from the right place
+   (the consumed count is the encoded length).  wf_udp / wf_tcp constrain only the LENGTH
+   of a registry option's value, so such messages are inside the preconditions. *)
+Theorem C01_values_verbatim : forall m cap m' n,
+  (wf_udp m = true -> blen (m_opts m) <= cap -> udp_decode cap (spec_udp_bytes m) = Ok (m', n) ->
+     m_opts m' = m_opts m /\ n = blen (spec_udp_bytes m)) /\
+  (forall rest, wf_tcp messageMaxLen m = true -> blen (m_opts m) <= cap -> blen (spec_tcp_bytes m) + blen rest < 4294967296 ->
+     tcp_decode cap (spec_tcp_bytes m ++ rest) = Ok (m', n) -> m_opts m' = m_opts m /\ n = blen (spec_tcp_bytes m)).
+Proof.
+  intros m cap m' n. split.
+  - intros Hwf Hcap H. exact (udp_values_verbatim m cap m' n Hwf Hcap H).
+  - intros rest Hwf Hcap Hl H. exact (tcp_values_verbatim m cap rest m' n Hwf Hcap Hl H).
+Qed.
+Print Assumptions C01_values_verbatim.
+
 (* Pooled path: MarshalWithEncoder returns exactly the encoding, and UnmarshalWithDecoder
    (copy + capacity-retry loop, from ANY initial option capacity >= 0) gives the message
    back, consuming all bytes. *)
@@ -161,3 +214,20 @@ Example C01_wf_inhabited :
               m_pay := [1; 2; 3]; m_mid := 65535; m_typ := 3 |} in
   wf_udp m = true /\ wf_tcp messageMaxLen m = true /\ udp_decode 4 (spec_udp_bytes m) = Ok (m, 349).
 Proof. vm_compute. repeat split. Qed.
+
+(* non-vacuity of the two statements above: uint options with leading zero bytes
+   (Observe 00 00 07, Content-Format 00 32, Max-Age 3c, Block2 00) are inside the
+   preconditions and come back unchanged from both coders; two frames back to back
+   followed by the first 3 bytes of a third are taken apart as stated *)
+Example C01_leading_zero_and_stream_inhabited :
+  let m := {| m_tok := [9]; m_code := 69;
+              m_opts := [(6, [0; 0; 7]); (12, [0; 50]); (14, [60]); (23, [0])];
+              m_pay := [1; 2]; m_mid := 7; m_typ := 2 |} in
+  let m2 := {| m_tok := []; m_code := 1; m_opts := [(11, [97])]; m_pay := []; m_mid := 0; m_typ := 0 |} in
+  wf_udp m = true /\ wf_tcp messageMaxLen m = true /\
+  udp_decode 4 (spec_udp_bytes m) = Ok (m, blen (spec_udp_bytes m)) /\
+  tcp_decode 4 (spec_tcp_bytes m ++ spec_tcp_bytes m2) = Ok (tcp_view m, 18) /\
+  msgs_ok 4 [m; m2] /\
+  tcp_frames 3 4 (stream_bytes [m; m2] ++ firstn 3 (spec_tcp_bytes m)) =
+    ([(tcp_view m, 18); (tcp_view m2, 4)], SErr EShortRead, firstn 3 (spec_tcp_bytes m)).
+Proof. vm_compute. repeat split; intro; discriminate. Qed.
